@@ -1429,6 +1429,9 @@ func (f *Frame) varBefore(blk *ssa.BasicBlock, idx int, name string, pos token.P
 			}
 		}
 	}
+	if v, ok := f.allocOf(cands, st); ok {
+		return v, true
+	}
 	first := true
 	for b := blk; b != nil; b = b.Idom() {
 		hi := len(b.Instrs) - 1
